@@ -653,6 +653,7 @@ var c09Variants = []starVariant{
 	{Idx: 3, Reuse: false, Auth: true},
 	{Idx: 4, Reuse: true, Auth: false, BFD: true},
 	{Idx: 5, Reuse: false, Auth: true, BFD: true},
+	{Idx: 6, Reuse: true, Auth: false, SvcChurn: true},
 }
 
 func checkC09(r *mon.Run) {
